@@ -28,7 +28,10 @@ Rules1 ==
       L     |-> Rule(Right(Expect(A1), Star(A1))),
       M     |-> Rule(Seq2(Not(B1), Opt(Ref("K")))),
       F     |-> Rule(Ch2(Seq2(A1, FailE), B1)),
-      Sh    |-> Rule(Seq2(Expect(Ref("K")), Ref("K"))) ]          \* the memoised instance occurs twice in the result
+      Sh    |-> Rule(Seq2(Expect(Ref("K")), Ref("K"))),           \* the memoised instance occurs twice in the result
+      \* regular expressions that match the empty string by themselves and still fail in context: /(?!a)[ab]*/ , /(?!b)/
+      G1    |-> Rule(Rgx(RxCat2(<<"la", Cls(<<a>>), FALSE>>, RxStarG(Cls(<<a, b>>))))),
+      G2    |-> Rule(Seq2(Star(Seq2(Rgx(<<"la", Cls(<<b>>), FALSE>>), Ref("X"))), Opt(Ref("Y")))) ]
 
 Rules2 ==
     [ start |-> Rule(Star(Ref("Item"))),
@@ -53,7 +56,7 @@ Grammar(i) ==
       [] i = 3 -> [rules |-> Rules2, ign |-> <<>>, start |-> "start"]
       [] i = 4 -> [rules |-> Rules2, ign |-> <<Rgx(RxPlus(Cls(<<sp>>)))>>, start |-> "start"]
 
-Entries(i) == IF i <= 2 THEN <<"start", "X", "Y", "K", "N", "Z", "E", "L", "M", "F", "Sh">>
+Entries(i) == IF i <= 2 THEN <<"start", "X", "Y", "K", "N", "Z", "E", "L", "M", "F", "Sh", "G1", "G2">>
               ELSE IF i = 5 THEN <<"start", "H", "Body", "R">>
               ELSE <<"start", "Item", "W", "P", "Q", "T">>
 
@@ -65,8 +68,9 @@ Texts(i) == TextSeqUpTo(Alpha(i), IF i = 1 THEN N + 1 ELSE N)
             \o (IF i >= 3 THEN << <<a, 44, b, 44>>, <<a, 44, 44>>, <<40, 40, a, 41, b, 41, a>>, <<a, b, 44, a>> >> ELSE <<>>)
 
 (* curried entry point of a parameterised class: C.parse(value)(text, pos) *)
+\* (the parameter is called "text": the generated entry point has a parameter of that name itself)
 RulesP == [ start |-> Rule(Call("P", <<Pos(PyInt(2))>>)),
-            P |-> ClassP(<<"n">>, <<Field("it", Rep(A1, Nm("n"), Nm("n"))), Field("rest", Opt(B1))>>) ]
+            P |-> ClassP(<<"text">>, <<Field("it", Rep(A1, Nm("text"), Nm("text"))), Field("rest", Opt(B1))>>) ]
 GP == [rules |-> RulesP, ign |-> <<>>, start |-> "start"]
 CurriedRuns(tps) ==
     [k \in 1..(3 * Len(tps)) |->
